@@ -1,0 +1,34 @@
+//go:build !verif
+// +build !verif
+
+package skiplist
+
+import "unsafe"
+
+// Verification hook points (build tag verif only).
+const (
+	VpAcqLoaded             = iota + 1 // Acquire: session pointer loaded, before increment
+	VpAcqIncremented                   // Acquire: after increment
+	VpRelBeforeDec                     // Release: before decrement
+	VpRelLatched                       // Release: after closed latch won
+	VpRelEnqueued                      // Release: after freeq insert, before try-lock
+	VpRelCleanupDone                   // Release: after doCleanup, before try-lock release
+	VpRelUnlocked                      // Release: after try-lock release
+	VpCleanupLoop                      // doCleanup: loop head
+	VpCleanupBeforeDestruct            // doCleanup: before destructor (arg = session)
+	VpFlushBeforeLock                  // FlushSession: before Lock
+	VpFlushLocked                      // FlushSession: after Lock
+	VpFlushSwapped                     // FlushSession: after session swap (arg = old session)
+	VpFlushBeforeOffset                // FlushSession: before offset add
+	VpFlushBeforeRelease               // FlushSession: before inner Release
+	VpInsBeforePublish                 // Insert4: before level-0 publish CAS (arg = node)
+	VpInsBeforeLink                    // Insert4: before upper-level link CAS (arg = node)
+	VpInsLinked                        // Insert4: after an upper-level link CAS succeeded (arg = node)
+	VpDelBeforeMark                    // softDelete: before a mark CAS (arg = node)
+	VpDelMarked                        // deleteNode: after softDelete succeeded, before the unlink pass (arg = node)
+	VpHelpBeforeUnlink                 // helpDelete: before unlink CAS (arg = node being unlinked)
+	VpIterNextRead                     // Iterator.Next: after reading (next,deleted) (arg = current node)
+)
+
+// verifPoint is a no-op unless built with -tags verif.
+func verifPoint(id int, arg unsafe.Pointer) {}
